@@ -889,21 +889,21 @@ theorem xf_cls_preserved (V : Variant) (x x' : Xf) (v : Vec) (h : x.fromVec V v 
 
 theorem homogFvi_wf (r : Row) (x x' : Xf) (p : Vec) (hw : Xf.wfH .Homogeneous x.h = true)
     (h : homogFvi r x p = .ok x') : Xf.wfH .Homogeneous x'.h = true := by
-  simp only [Xf.wfH, Bool.and_eq_true, decide_eq_true_eq, isSquare, beq_iff_eq, List.all_eq_true, true_and] at hw
-  obtain ⟨h2, hsq⟩ := hw
+  simp only [Xf.wfH, Bool.and_eq_true, decide_eq_true_eq, beq_iff_eq, List.all_eq_true] at hw
+  obtain ⟨⟨h2, hc2⟩, _⟩ := hw
   unfold homogFvi at h; dsimp only at h
   split at h
   · rename_i hl
     obtain ⟨_, hh, _, _⟩ := setH_ok _ _ _ _ h
-    have hcols : (x.h.headD []).length = x.h.length := by
-      cases hx : x.h with
-      | nil => rw [hx] at h2; simp at h2
-      | cons r0 rs => rw [hx] at hsq; simpa using hsq r0 (by simp)
-    rw [hcols] at hl hh
+    have hrows := chunks_row_length (x.h.headD []).length x.h.length p hl
+    have hlen : (chunks (x.h.headD []).length x.h.length p).length = x.h.length := chunks_length _ _ _
+    have hhead : ((chunks (x.h.headD []).length x.h.length p).headD []).length = (x.h.headD []).length := by
+      cases hc : chunks (x.h.headD []).length x.h.length p with
+      | nil => rw [hc] at hlen; simp at hlen; omega
+      | cons r0 rs => rw [hc] at hrows; simpa using hrows r0 (by simp)
     rw [hh]
-    simp only [Xf.wfH, Bool.and_eq_true, decide_eq_true_eq, isSquare, beq_iff_eq, List.all_eq_true,
-      chunks_length, true_and]
-    exact ⟨h2, chunks_row_length _ _ _ hl⟩
+    simp only [Xf.wfH, Bool.and_eq_true, decide_eq_true_eq, beq_iff_eq, List.all_eq_true, hlen, hhead]
+    exact ⟨⟨h2, hc2⟩, hrows⟩
   · cases h
 
 /-- PROPERTY (transforms, every length, patched behaviour): whatever `from_vector` accepts is a well-formed
@@ -1145,15 +1145,11 @@ theorem xf_from_as (V : Variant) (eig : Mat → Vec) (x : Xf) (v : Vec) (hc : is
   · -- Homogeneous
     simp only [homogAsVec, Except.ok.injEq] at hv
     subst hv
-    simp only [Xf.wfH, Bool.and_eq_true, decide_eq_true_eq, isSquare, beq_iff_eq, List.all_eq_true, true_and] at hwH
-    obtain ⟨h2, hsq⟩ := hwH
-    have hcols : (hm.headD []).length = hm.length := by
-      cases hx : hm with
-      | nil => rw [hx] at h2; simp at h2
-      | cons r0 rs => rw [hx] at hsq; simpa using hsq r0 (by simp)
+    simp only [Xf.wfH, Bool.and_eq_true, decide_eq_true_eq, beq_iff_eq, List.all_eq_true] at hwH
+    obtain ⟨_, hsq⟩ := hwH
     rw [fromVec_Homogeneous]
     unfold homogFvi; dsimp only
-    rw [hcols, if_pos (flatten_length_uniform _ _ hsq), chunks_flatten _ _ hsq]
+    rw [if_pos (flatten_length_uniform _ _ hsq), chunks_flatten _ _ hsq]
     rfl
   · -- Affine
     have haff := wfH_affine _ _ rfl (by simp) hwH
@@ -1893,15 +1889,11 @@ theorem xf_right_length_accepted (V : Variant) (x : Xf) (v : Vec) (hc : isXfCls 
   cases cls <;> simp [isXfCls] at hc
   · -- Homogeneous
     simp only [Except.ok.injEq] at hn
-    simp only [Xf.wfH, Bool.and_eq_true, decide_eq_true_eq, isSquare, beq_iff_eq, List.all_eq_true, true_and] at hwH
-    obtain ⟨h2, hsq⟩ := hwH
-    have hcols : (hm.headD []).length = hm.length := by
-      cases hx : hm with
-      | nil => rw [hx] at h2; simp at h2
-      | cons r0 rs => rw [hx] at hsq; simpa using hsq r0 (by simp)
+    simp only [Xf.wfH, Bool.and_eq_true, decide_eq_true_eq, beq_iff_eq, List.all_eq_true] at hwH
+    obtain ⟨_, hsq⟩ := hwH
     rw [fromVec_Homogeneous]
     unfold homogFvi; dsimp only
-    rw [hcols, if_pos (by rw [← hn]; exact flatten_length_uniform _ _ hsq)]
+    rw [if_pos (by rw [← hn]; exact flatten_length_uniform _ _ hsq)]
     exact ⟨_, rfl⟩
   all_goals
     have haff := wfH_affine _ _ rfl (by simp) hwH
@@ -2345,6 +2337,16 @@ def exAlign4 : Xf := ⟨.AlignmentTranslation, [[1, 0, 4], [0, 1, 4], [0, 0, 1]]
 example : exAlign.fromVec fixed [4] = .ok exAlign4 := by decide +kernel
 example : Xf.wfH exAlign4.cls exAlign4.h = true :=
   (xf_wrong_length_fixed exAlign exAlign4 [4] rfl (by decide) (by decide +kernel)).2
+
+/-- a NON-SQUARE plain Homogeneous (a 2×3 projection matrix: n_dims = 2, n_dims_output = 1): well formed, and both round
+trips keep its 2×3 shape -/
+def exProj : Xf := ⟨.Homogeneous, [[1, 2, 3], [4, 5, 6]], [], []⟩
+example : exProj.wf = true := by decide +kernel
+example : exProj.asVecWith (fun _ => []) = .ok [1, 2, 3, 4, 5, 6] ∧ exProj.nParams = .ok 6 := by decide +kernel
+example : exProj.fromVec fixed [1, 2, 3, 4, 5, 6] = .ok exProj :=
+  xf_from_as fixed (fun _ => []) exProj _ rfl (by decide) (by decide +kernel) (by decide +kernel)
+example : exProj.fromVec fixed [6, 5, 4, 3, 2, 1] = .ok ⟨.Homogeneous, [[6, 5, 4], [3, 2, 1]], [], []⟩ := by decide +kernel
+example : ∃ e, exProj.fromVec fixed [1, 2, 3, 4] = .error e := ⟨_, rfl⟩
 
 def exRot : Xf := ⟨.Rotation, [[1, 0, 0, 0], [0, 1, 0, 0], [0, 0, 1, 0], [0, 0, 0, 1]], [], []⟩
 /-- the `eigh` contract is satisfiable: for `q = (1/2, 1/2, 1/2, 1/2)` the vector `(1/2, 1/2, 1/2, 1/2)` is a unit
